@@ -32,8 +32,8 @@ ASSUMPTIONS = [
     'callees without loops are rebuilt from the real source in the same namespace and verified as part of their caller (inlined); the composite projections (project_chain_to_cycles, project_chain_to_samples, project_subset_to_samples) and map_subset_to_sample call their callees through contract stubs whose pre-conditions become obligations at the call and whose post-conditions are the ones discharged in the callee\'s own unit',
 ]
 ASSUMPTIONS.append('map_chain_to_samples: np.hstack of a symbolic number of variable-length pieces by an assumed contract (pieces laid end to end: offsets, piece-of-entry function); '
-                   'the result is proved to hold exactly the samples of the chain (sound and complete); that no sample is listed twice and the order are checked by the bounded stand-in')
-NOT_COVERED = ['map_chain_to_samples: order and multiplicity of the listed samples - bounded stand-in only (membership is proved)',
+                   'the result is proved to hold exactly the samples of the chain, each listed once (sound, complete, post:each-sample-listed-once); the order of the list is checked by the bounded stand-in')
+NOT_COVERED = ['map_chain_to_samples: order of the listed samples - bounded stand-in only (membership and multiplicity are proved)',
                'augmented-cycle maps (outside the property)']
 
 N = z3.Int('N')        # samples
@@ -275,6 +275,10 @@ def units(tier):
         jw = PPc(lift(k), SVf(CVf(s)))
         qw = PPv(CVf(s), s)
         c.oblige('post:complete', z3.Implies(z3.And(0 <= s, s < N, inchain(s)), z3.And(0 <= OFF(jw) + qw, OFF(jw) + qw < L, r.elem(OFF(jw) + qw) == s)), 'post')
+        # multiplicity: no sample is listed twice. Two entries of one piece differ because a piece (the samples of one cycle) is strictly increasing;
+        # entries of two pieces differ because they lie in the cycles POS(j1) != POS(j2) of two different subset cycles (sv[POS(j)] = j)
+        p2 = z3.Int('pp2')
+        c.oblige('post:each-sample-listed-once', z3.Implies(z3.And(0 <= p, p < p2, p2 < L), r.elem(p) != r.elem(p2)), 'post')
     unit('map_chain_to_samples', mk, post, inline=['map_chain_to_subset'])
     U[-1].ns = dict(U[-1].ns or {}, map_subset_to_sample=subset_to_sample_stub)
 
